@@ -1058,7 +1058,10 @@ pub struct InSampledTraceFilter {
 
 impl Filter for InSampledTraceFilter {
     fn matches<E: ToEvent>(&self, _: E) -> bool {
-        if let Some(active) = get_active_traceparent() {
+        // An invalid traceparent isn't a trace; its flags don't apply to anything
+        let active = get_active_traceparent().filter(|active| active.traceparent.is_valid());
+
+        if let Some(active) = active {
             active.traceparent.trace_flags().is_sampled()
         } else {
             self.match_events_outside_traces
